@@ -174,7 +174,7 @@ def gen_scenario(rng, idn, tier):
     for _ in range(nops):
         x = rng.choice([N, D, T, T, D])
         r = rng.below(100)
-        k, v = rng.choice(keys), rng.range(0, 3)
+        k, v = rng.choice(keys), rng.range(0, 3 if ty in ("full", "cfull") or rng.chance(1, 3) else 9)      # multimaps: value sets that differ between the versions
         if r < 38:
             if conc and rng.chance(1, 2):
                 if ty == "cnoidx" and rng.chance(1, 2):
